@@ -92,7 +92,74 @@ _SAFE_METHODS = {
 _PY_TYPES = {"int": int, "float": float, "str": str, "bytes": bytes, "list": list, "dict": dict, "tuple": tuple, "bool": bool, "bytearray": bytearray, "set": set}
 
 
+class PyIter:
+    """A real Python iterator over already-evaluated values (iter(), zip(), map(), range(), enumerate()): consumption is
+    exactly Python's - lazy, one-shot, shared between the places that hold it."""
+
+    def __init__(self, it, what: str):
+        self.it, self.what = iter(it), what
+
+    def __iter__(self):
+        return self
+
+    def __next__(self):
+        return next(self.it)
+
+    def __repr__(self):
+        return f"<{self.what} iterator>"
+
+
+class Closure:
+    """A nested `def` / lambda of the interpreted fragment: called with the enclosing variables as they are at call time."""
+
+    def __init__(self, ev: "Evaluator", node):
+        self.ev, self.node = ev, node
+
+    def sa_call(self, args, kw):
+        a = self.node.args
+        names = [x.arg for x in a.posonlyargs + a.args]
+        if a.vararg or a.kwarg or a.kwonlyargs or len(args) > len(names):
+            raise Unsupported("call of a nested function with a non-trivial signature")
+        env = dict(self.ev.env)
+        defaults = dict(zip(names[len(names) - len(a.defaults):], a.defaults))
+        for i, n in enumerate(names):
+            if i < len(args):
+                env[n] = args[i]
+            elif n in kw:
+                env[n] = kw[n]
+            elif n in defaults:
+                env[n] = self.ev.ev(defaults[n])
+            else:
+                raise PyRaise("TypeError")
+        child = self.ev.child(env)
+        if isinstance(self.node, ast.Lambda):
+            return child.ev(self.node.body)
+        if any(isinstance(x, (ast.Nonlocal, ast.Global, ast.Yield, ast.YieldFrom)) for x in ast.walk(self.node)):
+            raise Unsupported("nested function with nonlocal/global/yield")
+        return child.run_body(self.node.body)
+
+    def __call__(self, *args):
+        return self.sa_call(list(args), {})
+
+
+def _as_iterable(seq):
+    """list/tuple/str/bytes/dict/set/PyIter -> something a Python `for` can consume with Python's own semantics."""
+    if isinstance(seq, (list, tuple, PyIter, range)):
+        return seq
+    if isinstance(seq, (str, bytes)):
+        return list(seq)
+    if isinstance(seq, (dict, set, frozenset)):
+        return list(seq)
+    return None
+
+
 class Evaluator:
+    def child(self, env: dict) -> "Evaluator":
+        c = type(self).__new__(type(self))
+        c.__dict__.update(self.__dict__)
+        c.env = env
+        return c
+
     def ev_args(self, call: ast.Call):
         out = []
         for a in call.args:
@@ -159,6 +226,9 @@ class Evaluator:
             if isinstance(v, Record):
                 if e.attr in v.fields:
                     return v.fields[e.attr]
+                ga = v.fields.get("__getattr__")
+                if callable(ga):
+                    return ga(e.attr)
                 raise Unsupported(f"attribute .{e.attr} of {v!r}")
             if isinstance(v, dict) and v.get("__namespace__") and e.attr in v:
                 return v[e.attr]
@@ -274,12 +344,41 @@ class Evaluator:
                         continue
                     parts.append(x.fields.get("__str__", repr(x)) if isinstance(x, Record) else str(x))
             return "".join(parts)
+        if isinstance(e, (ast.GeneratorExp, ast.ListComp)) and len(e.generators) == 1 and isinstance(e.generators[0].target, ast.Tuple) and all(isinstance(t, ast.Name) for t in e.generators[0].target.elts):
+            g = e.generators[0]
+            seq = self.ev(g.iter)
+            if isinstance(seq, Record) and callable(seq.fields.get("__iter__")):
+                seq = seq.fields["__iter__"]()
+            seq = _as_iterable(seq)
+            if seq is None:
+                raise Unsupported("comprehension over a non-sequence")
+            names = [t.id for t in g.target.elts]
+            saved = {n: self.env.get(n, _MISSING) for n in names}
+            out = []
+            try:
+                for item in seq:
+                    if not isinstance(item, (list, tuple)) or len(item) != len(names):
+                        raise PyRaise("ValueError")
+                    for n, x in zip(names, item):
+                        self.env[n] = x
+                    if all(self.truth(self.ev(c)) for c in g.ifs):
+                        out.append(self.ev(e.elt))
+            finally:
+                for n, v in saved.items():
+                    if v is _MISSING:
+                        self.env.pop(n, None)
+                    else:
+                        self.env[n] = v
+            return out
+        if isinstance(e, ast.Lambda):
+            return Closure(self, e)
         if isinstance(e, (ast.GeneratorExp, ast.ListComp)) and len(e.generators) == 1 and isinstance(e.generators[0].target, ast.Name):
             g = e.generators[0]
             seq = self.ev(g.iter)
             if isinstance(seq, Record) and callable(seq.fields.get("__iter__")):
                 seq = seq.fields["__iter__"]()
-            if not isinstance(seq, (list, tuple)):
+            seq = _as_iterable(seq)
+            if seq is None:
                 raise Unsupported("comprehension over a non-sequence")
             out = []
             saved = self.env.get(g.target.id, _MISSING)
@@ -328,6 +427,44 @@ class Evaluator:
                     else:
                         self.env[g.target.id] = saved
                 return result
+            if isinstance(fn, ast.Name) and fn.id in ("iter", "zip", "map", "filter", "range", "next", "reversed") and fn.id not in self.env and not e.keywords and not any(isinstance(a, ast.Starred) for a in e.args):
+                args = [self.ev(a) for a in e.args]
+                if fn.id == "range" and all(isinstance(a, int) and not isinstance(a, bool) for a in args) and 1 <= len(args) <= 3:
+                    try:
+                        return range(*args)
+                    except ValueError:
+                        raise PyRaise("ValueError")
+                if fn.id == "next" and args and isinstance(args[0], PyIter):
+                    try:
+                        return next(args[0])
+                    except StopIteration:
+                        if len(args) == 2:
+                            return args[1]
+                        raise PyRaise("StopIteration")
+                its = []
+                ok = True
+                for a in (args[1:] if fn.id in ("map", "filter") else args):
+                    if isinstance(a, Record) and callable(a.fields.get("__iter__")):
+                        a = a.fields["__iter__"]()
+                    a = _as_iterable(a)
+                    if a is None:
+                        ok = False
+                        break
+                    its.append(a)
+                if ok and fn.id == "iter" and len(its) == 1:
+                    return PyIter(its[0], "iter")
+                if ok and fn.id == "reversed" and len(its) == 1 and isinstance(its[0], (list, tuple, range)):
+                    return PyIter(reversed(its[0]), "reversed")
+                if ok and fn.id == "zip":
+                    return PyIter(zip(*its), "zip")
+                if ok and fn.id in ("map", "filter") and args and (hasattr(args[0], "sa_call") or args[0] is None):
+                    f0 = args[0]
+                    call = (lambda *xs: f0.sa_call(list(xs), {})) if f0 is not None else None
+                    if fn.id == "map":
+                        return PyIter(map(call, *its), "map")
+                    if len(its) == 1:
+                        return PyIter(filter((lambda x: self.truth(call(x))) if call else (lambda x: self.truth(x)), its[0]), "filter")
+                # fall through to the hooks for anything else
             if isinstance(fn, ast.Name) and fn.id in ("max", "min", "any", "all", "sorted", "list", "tuple", "enumerate") and fn.id not in self.env:
                 args = [self.ev(a) for a in e.args]
                 kw = {k.arg: self.ev(k.value) for k in e.keywords}
@@ -533,9 +670,8 @@ class Evaluator:
                 seq = self.ev(st.iter)
                 if isinstance(seq, Record) and callable(seq.fields.get("__iter__")):
                     seq = seq.fields["__iter__"]()
-                if isinstance(seq, (str, bytes)):
-                    seq = list(seq)
-                if not isinstance(seq, (list, tuple)):
+                seq = _as_iterable(seq)
+                if seq is None:
                     raise Unsupported("for over a non-sequence")
                 broke = False
                 for item in seq:
@@ -579,6 +715,8 @@ class Evaluator:
                         continue
                 if not broke:
                     self._block(st.orelse)
+            elif isinstance(st, ast.FunctionDef):
+                self.env[st.name] = Closure(self, st)
             elif isinstance(st, ast.Assert):
                 if not self.truth(self.ev(st.test)):
                     raise PyRaise("AssertionError")
